@@ -24,9 +24,10 @@ type Item struct {
 }
 
 type HReply struct {
-	Raw     hx.B  `json:"raw"`
-	Cuts    []int `json:"cuts"`
-	DelayMs int   `json:"delay_ms,omitempty"` // the backend is late with this reply
+	Raw     hx.B   `json:"raw"`
+	Cuts    []int  `json:"cuts"`
+	DelayMs int    `json:"delay_ms,omitempty"` // the backend is late with this reply
+	Close   string `json:"close,omitempty"`    // after this reply the backend closes ("fin") or resets ("rst") its connection
 }
 
 type HttpInput struct {
@@ -39,8 +40,10 @@ type HttpInput struct {
 	RealTCP bool     `json:"real_tcp"` // client leg over a real loopback TCP connection (segmentation then up to the kernel)
 	// HalfClose (real TCP only): the client ends its sending direction right after its last
 	// write (HTTP/1.0 style "request, then shutdown") and only then reads the replies
-	HalfClose bool   `json:"half_close,omitempty"`
-	Marker    string `json:"marker"` // value of the X-C15 header in this case's requests (how the backend attributes connections)
+	HalfClose bool `json:"half_close,omitempty"`
+	// Shared: the proxy's port is shared with a detector service listed before it
+	Shared bool   `json:"shared_port,omitempty"`
+	Marker string `json:"marker"` // value of the X-C15 header in this case's requests (how the backend attributes connections)
 }
 
 type SResp struct {
@@ -368,6 +371,91 @@ func genHalfClose(r *hx.Rand, id string, k int) HttpInput {
 	return in
 }
 
+// nextfails: n complete requests and then an exchange that cannot complete, the client's
+// stream written in one write, one write per request, or cut anywhere (pipelined) - or in
+// lock-step.  The n replies the backend has given must reach the client all the same.
+//
+//	how = "fin" / "rst":  the backend closes / resets its connection after reply n (with and
+//	                       without "Connection: close" in that reply); request n+1 is fine
+//	how = "bad":           request n+1 is malformed (incl. a stray CRLF after a body)
+//	how = "cut":           request n+1 is incomplete: the client stops after `cutAt` bytes of it
+func genNextFails(r *hx.Rand, id string, how string, mode int, cutAt int) HttpInput {
+	in := HttpInput{Class: "nextfails"}
+	n := r.Range(1, 2)
+	var lens []int
+	total := 0
+	for i := 0; i < n; i++ {
+		g := genRequest(r, id, true, false)
+		for len(g.raw) > 1200 {
+			g = genRequest(r, id, true, false)
+		}
+		if i == n-1 && how == "bad" && mode%2 == 1 {
+			// a POST whose body is followed by a stray CRLF (what old browsers sent)
+			g = genReq{raw: []byte("POST /form HTTP/1.1\r\nHost: example.com\r\nUser-Agent: old-browser\r\n" + markerHeader + ": " + id + "\r\nContent-Length: 5\r\n\r\nhello"), method: "POST"}
+		}
+		in.Msgs = append(in.Msgs, g.raw)
+		lens = append(lens, len(g.raw))
+		total += len(g.raw)
+		rep := genReply(r, g.method, true)
+		if i == n-1 && (how == "fin" || how == "rst") {
+			rep.Close = how
+			if r.Bool() {
+				rep.Raw = hx.B(strings.Replace(string(rep.Raw), "\r\n", "\r\nConnection: close\r\n", 1))
+				rep.Cuts = []int{len(rep.Raw)}
+			}
+		}
+		in.Replies = append(in.Replies, rep)
+	}
+	var next []byte
+	switch how {
+	case "fin", "rst":
+		next = genRequest(r, id, true, false).raw
+	case "bad":
+		if mode%2 == 1 {
+			next = []byte("\r\n")
+		} else {
+			next = [][]byte{
+				[]byte("GET /nothing\r\n" + markerHeader + ": " + id + "\r\n\r\n"),
+				[]byte("GET / HTTP/1.1\r\nno colon here\r\n\r\n"),
+				[]byte("POST / HTTP/1.1\r\nContent-Length: 12abc\r\n\r\n"),
+				[]byte("GET / HTTP/9.9.9\r\n\r\n"),
+				[]byte("\x16\x03\x01\x00\xa5\x01 binary\r\n\r\n"),
+			}[r.Intn(5)]
+		}
+	default:
+		g := genRequest(r, id, true, false).raw
+		if cutAt < 1 {
+			cutAt = 1
+		}
+		if cutAt >= len(g) {
+			cutAt = len(g) - 1
+		}
+		next = g[:cutAt]
+	}
+	in.Msgs = append(in.Msgs, next)
+	lens = append(lens, len(next))
+	total += len(next)
+	switch mode % 4 {
+	case 0: // one write
+		in.Items = []Item{{Seg: total}}
+	case 1: // one write per message
+		in.Items = segItems(lens)
+	case 2: // one cut anywhere
+		c := r.Range(1, total-1)
+		in.Items = []Item{{Seg: c}, {Seg: total - c}}
+	default: // lock-step: wait for every reply before the next request
+		for i, l := range lens {
+			in.Items = append(in.Items, Item{Seg: l})
+			if i < n {
+				in.Items = append(in.Items, Item{Wait: i + 1})
+			}
+		}
+	}
+	// the client wants the replies to its n complete requests (it cannot have more)
+	in.Items = append(in.Items, Item{Wait: n})
+	return in
+}
+
 func genMalformed(r *hx.Rand, id string) HttpInput {
 	in := HttpInput{Class: "malformed"}
 	good := genRequest(r, id, true, false)
@@ -442,13 +530,16 @@ func (e *httpEnv) run(in HttpInput, id string) (HttpObs, string) {
 	}
 	var reps []httpReply
 	for _, rp := range in.Replies {
-		reps = append(reps, httpReply{Raw: rp.Raw, Cuts: rp.Cuts, DelayMs: rp.DelayMs})
+		reps = append(reps, httpReply{Raw: rp.Raw, Cuts: rp.Cuts, DelayMs: rp.DelayMs, Close: rp.Close})
 	}
 	e.be.setScript(id, reps)
 	n := atomic.AddInt32(&e.seq, 1)
 	lport := e.port
 	if in.NoPort {
 		lport = e.portNP
+	}
+	if in.Shared && !in.NoPort {
+		lport = 8081
 	}
 	local := &net.TCPAddr{IP: net.ParseIP("127.0.0.1"), Port: lport}
 	remote := &net.TCPAddr{IP: net.ParseIP("198.51.100.7"), Port: 20000 + int(n)}
@@ -688,8 +779,10 @@ func coqHTTPCase(id int, in HttpInput, ob HttpObs) string {
 			items = append(items, "CWait "+hx.CoqN(uint64(it.Wait)))
 		}
 	}
+	var closes []string
 	for _, rp := range in.Replies {
 		reps = append(reps, "("+coqPacked(rp.Raw)+", "+coqNs(rp.Cuts)+")")
+		closes = append(closes, hx.CoqBool(rp.Close != ""))
 	}
 	for _, q := range ob.BReqs {
 		breqs = append(breqs, fmt.Sprintf("mkSReq %s %s %s %s %s %s %s %s %s", hx.CoqStr(q.Method), hx.CoqStr(q.Target), hx.CoqStr(q.Host),
@@ -701,8 +794,8 @@ func coqHTTPCase(id int, in HttpInput, ob HttpObs) string {
 	for _, e := range ob.Events {
 		evs = append(evs, fmt.Sprintf("mkSEv %s %s %s %s %s %s", hx.CoqStr(e.Method), hx.CoqStr(e.URL), hx.CoqZ(e.CL), hx.CoqN(uint64(e.PLen)), coqH(e.PH), hx.CoqBool(e.SrcOK)))
 	}
-	return fmt.Sprintf("mkH %s %s %s %s\n     %s %s %s %s\n     %s %s %s",
-		hx.CoqN(uint64(id)), hx.CoqList(msgs, "bytes"), hx.CoqList(items, "item"), hx.CoqList(reps, "(bytes * list N)"),
+	return fmt.Sprintf("mkH %s %s %s %s %s\n     %s %s %s %s\n     %s %s %s",
+		hx.CoqN(uint64(id)), hx.CoqList(msgs, "bytes"), hx.CoqList(items, "item"), hx.CoqList(reps, "(bytes * list N)"), hx.CoqList(closes, "bool"),
 		hx.CoqList(breqs, "sreq"), hx.CoqN(uint64(ob.BConns)), hx.CoqBool(ob.BGarbage), hx.CoqBool(ob.BPeersOK),
 		hx.CoqList(cresps, "sresp"), hx.CoqBool(ob.CGarbage), hx.CoqList(evs, "sevent"))
 }
